@@ -204,6 +204,9 @@ func runObjective(c *tcase, routine string) error {
 	}
 	hasCons := c.Class == "constraints_never" || c.Class == "constraints_only_start"
 	var err error
+	if c.Class == "epsilon_unattainable" {
+		return runEpsilon(c, routine)
+	}
 	switch routine {
 	case "lineSearch":
 		phi := func(alpha ConstScalar) (MagicScalar, error) {
@@ -301,6 +304,86 @@ func runObjective(c *tcase, routine string) error {
 	return err
 }
 
+// Epsilon below the attainable accuracy on exp(x) = t
+func runEpsilon(c *tcase, routine string) error {
+	t := float64(c.K)
+	if c.K < 0 {
+		t = 1 / float64(-c.K)
+	}
+	x0 := NewDenseFloat64Vector([]float64{2})
+	eps := newton.Epsilon{Value: 1e-30}
+	froot := func(x ConstVector) (MagicVector, error) {
+		y := NullDenseReal64Vector(1)
+		y.At(0).Exp(x.ConstAt(0))
+		y.At(0).Sub(y.At(0), ConstFloat64(t))
+		return y, nil
+	}
+	f := func(x ConstVector) (MagicScalar, error) {
+		y := NewReal64(0)
+		u := NewReal64(0)
+		y.Exp(x.ConstAt(0))
+		u.Mul(x.ConstAt(0), ConstFloat64(t))
+		y.Sub(y, u)
+		return y, nil
+	}
+	var err error
+	switch routine {
+	case "newtonRoot":
+		_, err = newton.RunRoot(froot, x0, eps)
+	case "newtonCrit":
+		_, err = newton.RunCrit(f, x0, eps)
+	case "newtonMin":
+		_, err = newton.RunMin(f, x0, eps)
+	default:
+		vh.Fatal("routine not bound for the epsilon class: " + routine)
+	}
+	return err
+}
+
+// lineSearch.Run with Parameters{Alpha1, MaxEval} and a Constraints region
+func runLineSearch(c *tcase) error {
+	if len(c.M) != 5 {
+		vh.Fatal("bad line search case")
+	}
+	alpha1 := float64(c.M[0]) / float64(c.M[1])
+	bound := alpha1 * float64(c.M[2]) / float64(c.M[3])
+	maxEval := c.M[4]
+	phi := func(alpha ConstScalar) (MagicScalar, error) {
+		y := NewReal64(0)
+		switch c.Obj {
+		case "neg_linear":
+			y.Neg(alpha)
+		case "far_quadratic":
+			y.Div(alpha, ConstFloat64(alpha1))
+			y.Sub(y, ConstFloat64(10))
+			y.Mul(y, y)
+		case "quadratic":
+			y.Sub(alpha, ConstFloat64(1))
+			y.Mul(y, y)
+		default:
+			vh.Fatal("objective not bound: " + c.Obj)
+		}
+		return y, nil
+	}
+	region := func(a ConstScalar) bool {
+		switch c.Class {
+		case "ls_le":
+			return a.GetFloat64() <= bound
+		case "ls_lt":
+			return a.GetFloat64() < bound
+		case "ls_never":
+			return false
+		case "ls_only_zero":
+			return a.GetFloat64() == 0
+		}
+		vh.Fatal("region not bound: " + c.Class)
+		return false
+	}
+	_, err := lineSearch.Run(phi, Float64Type, lineSearch.Parameters{Alpha1: alpha1, MaxEval: maxEval},
+		lineSearch.Constraints{Value: region})
+	return err
+}
+
 func runMatrix(c *tcase, routine string) error {
 	a := caseMatrix(c)
 	var err error
@@ -390,9 +473,12 @@ func termChild(args []string) {
 			put(jline{E: "call", ID: id, Ts: t0.UnixNano() / 1e6})
 			var rerr error
 			msg := vh.Try(func() {
-				if c.Kind == "matrix" {
+				switch c.Kind {
+				case "matrix":
 					rerr = runMatrix(c, cl.R)
-				} else {
+				case "linesearch":
+					rerr = runLineSearch(c)
+				default:
 					rerr = runObjective(c, cl.R)
 				}
 			})
